@@ -435,6 +435,15 @@ impl<'data> MergedStringsSection<'data> {
         let mut resources =
             create_split_resources(&mut self.string_offsets, input_sections, reuse_pool, args);
 
+        #[cfg(wild_verif)]
+        crate::verif_ev!(
+            "SecBegin",
+            "\"groups\":{},\"nb\":{MERGE_STRING_BUCKETS},\"cap\":{},\"avail\":{}",
+            resources.num_input_groups,
+            reuse_pool.capacity,
+            reuse_pool.available.load(Ordering::Relaxed)
+        );
+
         rayon::in_place_scope(|s| {
             // Spawn some number of tasks to process input section groups. As these tasks complete,
             // they'll spawn bucket processing tasks to take those inputs. As the bucket processing
@@ -442,6 +451,16 @@ impl<'data> MergedStringsSection<'data> {
             // tasks. This continues until the last inputs and the last buckets have been processed.
             try_spawn_input_processing(&resources, s);
         });
+
+        #[cfg(wild_verif)]
+        crate::verif_ev!(
+            "SecEnd",
+            "\"avail\":{},\"errors\":{},\"unprocessed\":{},\"finished\":{}",
+            reuse_pool.available.load(Ordering::Relaxed),
+            resources.errors.len(),
+            resources.unprocessed.len(),
+            resources.finished_buckets.len()
+        );
 
         // Check if we got any errors. We only look at the first error.
         if let Some(error) = resources.errors.pop() {
@@ -554,6 +573,13 @@ impl<'scope, 'data: 'scope, 'offsets> SplitResources<'data, 'offsets, 'scope> {
         let mut lock = self.strings_by_bucket_and_group[string_bucket_offset(input, bucket)]
             .lock()
             .unwrap();
+        #[cfg(wild_verif)]
+        crate::verif_ev!(
+            "Swap",
+            "\"g\":{input},\"b\":{bucket},\"prev\":\"{}\",\"new\":\"{}\"",
+            lock.verif_kind(),
+            slot.verif_kind()
+        );
         replace(&mut lock, slot)
     }
 }
@@ -569,6 +595,11 @@ fn try_spawn_input_processing<'scope>(
         };
 
         scope.spawn(|scope| {
+            #[cfg(wild_verif)]
+            {
+                crate::verif::yield_point(13);
+                crate::verif_ev!("SplitStart");
+            }
             if let Some(input_section) = resources.unprocessed.pop()
                 && let Err(error) =
                     process_input_section_group(resources, input_section, scope, &mut reservation)
@@ -585,6 +616,17 @@ enum StringsSlot<'data, 'offsets> {
     Empty,
     WaitingForStrings(Box<MergeStringsSectionBucket<'data>>),
     Strings(Vec<StringToMerge<'data, 'offsets>>),
+}
+
+#[cfg(wild_verif)]
+impl StringsSlot<'_, '_> {
+    fn verif_kind(&self) -> &'static str {
+        match self {
+            StringsSlot::Empty => "E",
+            StringsSlot::WaitingForStrings(_) => "W",
+            StringsSlot::Strings(_) => "S",
+        }
+    }
 }
 
 fn create_split_resources<'data, 'offsets, 'scope>(
@@ -754,6 +796,11 @@ impl ReusePool {
         assert!(r.is_ok());
 
         self.available.fetch_add(1, Ordering::Relaxed);
+        #[cfg(wild_verif)]
+        {
+            crate::verif_ev!("ReturnVec");
+            crate::verif::yield_point(12);
+        }
     }
 
     /// Attempt to reserve the specified number of Vecs. Fails if there isn't at least that many
@@ -761,8 +808,13 @@ impl ReusePool {
     fn try_reserve(&self, num_vecs: usize) -> Result<PoolReservation, ()> {
         let available = self.available.load(Ordering::Relaxed);
         if available < num_vecs {
+            #[cfg(wild_verif)]
+            crate::verif_ev!("ReserveFail", "\"observed\":{available}");
             return Err(());
         }
+
+        #[cfg(wild_verif)]
+        crate::verif::yield_point(10);
 
         if self
             .available
@@ -774,9 +826,13 @@ impl ReusePool {
             )
             .is_err()
         {
+            #[cfg(wild_verif)]
+            crate::verif_ev!("ReserveCasFail", "\"observed\":{available}");
             return Err(());
         }
 
+        #[cfg(wild_verif)]
+        crate::verif_ev!("Reserve", "\"observed\":{available},\"n\":{num_vecs}");
         Ok(PoolReservation {
             remaining: num_vecs,
         })
@@ -784,6 +840,8 @@ impl ReusePool {
 
     #[allow(clippy::needless_pass_by_value)]
     fn unreserve(&self, reservation: PoolReservation) {
+        #[cfg(wild_verif)]
+        crate::verif_ev!("Unreserve", "\"n\":{}", reservation.remaining);
         if reservation.remaining == 0 {
             return;
         }
@@ -817,6 +875,9 @@ fn process_input_section_group<'data, 'offsets, 'scope>(
 ) -> Result {
     verbose_timing_phase!("Split and hash");
 
+    #[cfg(wild_verif)]
+    crate::verif_ev!("SplitGroup", "\"g\":{}", group_in.index);
+
     let mut buckets: [Vec<StringToMerge<'data, 'offsets>>; MERGE_STRING_BUCKETS] = [();
         MERGE_STRING_BUCKETS]
         .map(|()| resources.reuse_pool.take_string_merge_vec(reservation));
@@ -837,6 +898,11 @@ fn process_input_section_group<'data, 'offsets, 'scope>(
         let prev_slot =
             resources.swap_strings_slot(group_in.index, i, StringsSlot::Strings(take(bucket_out)));
         if let StringsSlot::WaitingForStrings(bucket) = prev_slot {
+            #[cfg(wild_verif)]
+            {
+                crate::verif_ev!("BucketSpawn", "\"b\":{}", bucket.index);
+                crate::verif::yield_point(11);
+            }
             scope.spawn(|scope| {
                 if let Err(error) = work_with_bucket(resources, bucket, scope) {
                     let _ = resources.errors.push(error);
@@ -856,6 +922,17 @@ fn work_with_bucket<'data, 'scope>(
 ) -> Result {
     verbose_timing_phase!("Bucket strings");
 
+    #[cfg(wild_verif)]
+    {
+        crate::verif::yield_point(13);
+        crate::verif_ev!(
+            "BucketStart",
+            "\"b\":{},\"next\":{}",
+            bucket.index,
+            bucket.next_input_group_index
+        );
+    }
+
     let mut overflowed_offsets = resources.overflowed_offsets.get_or_default().borrow_mut();
 
     while bucket.next_input_group_index < resources.num_input_groups {
@@ -869,9 +946,14 @@ fn work_with_bucket<'data, 'scope>(
 
             let slot = replace(&mut *lock, StringsSlot::Empty);
             let StringsSlot::Strings(strings) = slot else {
+                #[cfg(wild_verif)]
+                crate::verif_ev!("Park", "\"b\":{},\"g\":{group_index}", bucket.index);
                 *lock = StringsSlot::WaitingForStrings(bucket);
                 return Ok(());
             };
+
+            #[cfg(wild_verif)]
+            crate::verif_ev!("Take", "\"b\":{},\"g\":{group_index}", bucket.index);
 
             strings
         };
@@ -886,9 +968,18 @@ fn work_with_bucket<'data, 'scope>(
 
         // Advance to the next input for this bucket.
         bucket.next_input_group_index += 1;
+        #[cfg(wild_verif)]
+        crate::verif_ev!(
+            "Advance",
+            "\"b\":{},\"next\":{}",
+            bucket.index,
+            bucket.next_input_group_index
+        );
     }
 
     // This bucket has now processed all input sections, so it's done.
+    #[cfg(wild_verif)]
+    crate::verif_ev!("BucketDone", "\"b\":{}", bucket.index);
     let _ = resources.finished_buckets.push(bucket);
     Ok(())
 }
